@@ -15,8 +15,8 @@ LOGIC = ("and", "or")
 TASK_WEIGHTS = {
     "C09": {"implicit": 3, "explicit": 2, "split": 2, "editor": 5, "valedit": 3,
             "cloner": 3, "algebra": 1, "builder": 0.5},
-    "C14": {"algebra": 7, "editor": 2, "valedit": 2, "cloner": 2, "scribbler": 2,
-            "implicit": 1, "facealg": 3},
+    "C14": {"algebra": 7, "editor": 2.5, "valedit": 2, "cloner": 3, "scribbler": 2,
+            "implicit": 2, "explicit": 1, "facealg": 3},
     "C15": {"builder": 6, "scribbler": 3, "implicit": 2, "explicit": 1.5, "editor": 1,
             "valedit": 1, "algebra": 1, "facealg": 1, "cloner": 1},
     "C03": {"editor": 5, "implicit": 2, "explicit": 2, "cloner": 2, "valedit": 2,
@@ -708,9 +708,16 @@ class Cloner(Task):
         rng = g.rng
         u = rng.random()
         v = g.pick("v")
+        if v and rng.random() < 0.6:
+            # prefer variables whose BC object is shared (their hidden state is richer)
+            sh = [n for n in g.names("v") if len(g.w.sharers(g.w.ents[n].meta["bc"])) >= 2]
+            if sh:
+                v = rng.choice(sh)
         if u < 0.35 and v:
             return [{"k": "copy", "out": g.fresh("v"), "outb": g.fresh("b"), "a": {"v": v}}]
-        if u < 0.65 and g.sw["share_bc"]:
+        if u < 0.42 and v:
+            return [{"k": "apply", "a": {"v": v}}]      # an explicit, harmless apply_BCs()
+        if u < 0.68 and g.sw["share_bc"]:
             b = g.pick("b")
             if b:
                 m = g.w.ents[b].meta["mesh"]
